@@ -33,13 +33,15 @@ enum ProcKind : int {
     PK_LMS_C,
     PK_RLS_R,
     PK_RLS_C,
+    PK_FFTFIR_CTAPS_RIN,   // complex taps, real input stream
+    PK_FFTFIR_RTAPS_CIN,   // real taps, complex input stream
     PK_COUNT
 };
 
 inline const char* proc_name(int k) {
     static const char* n[] = {"FirFilterR", "FirFilterC", "FftFilterR", "FftFilterC", "FIRDecimator", "FIRInterpolator", "FIRRateConverter", "FIRResampler",
                               "DelayReal", "DelayCmplx", "MedianFilter", "MAFilterR", "MAFilterC", "HilbertFilter", "Tuner", "AgcR", "AgcC", "Compressor",
-                              "Limiter", "NoiseGate", "LmsFilterR", "LmsFilterC", "RlsFilterR", "RlsFilterC"};
+                              "Limiter", "NoiseGate", "LmsFilterR", "LmsFilterC", "RlsFilterR", "RlsFilterC", "FftFilterCtapsRin", "FftFilterRtapsCin"};
     return (k >= 0 && k < PK_COUNT) ? n[k] : "?";
 }
 
@@ -111,6 +113,29 @@ struct FftFirP : Proc {
     }
     int64_t expect_out(int) const override {
         return -1;   // "usually in.size() != out.size()": only the concatenation is specified
+    }
+};
+
+// FftFilter whose tap type differs from the stream type (both overloads of process() exist for every filter)
+struct FftFirMixedP : Proc {
+    dsplib::FftFilter f;
+    bool real_in;
+    FftFirMixedP(const arr_cmplx& h, bool rin)
+      : f(h)
+      , real_in(rin) {
+        memory = h.size() - 1;
+        block = f.block_size();
+        in_width = out_width = rin ? 1 : 2;
+    }
+    void call(const double* in, int n, std::vector<std::vector<double>>& ch) override {
+        if (real_in) {
+            append(ch[0], f.process(to_arr(in, size_t(n))));
+        } else {
+            append(ch[0], f.process(to_carr(in, size_t(n))));
+        }
+    }
+    int64_t expect_out(int) const override {
+        return -1;
     }
 };
 
@@ -284,6 +309,10 @@ inline std::unique_ptr<Proc> make_proc(const ProcSpec& s) {
         return std::make_unique<FftFirP<real_t>>(rand_coeffs(s.cseed, I(0)));
     case PK_FFTFIR_C:
         return std::make_unique<FftFirP<cmplx_t>>(rand_ccoeffs(s.cseed, I(0)));
+    case PK_FFTFIR_CTAPS_RIN:
+        return std::make_unique<FftFirMixedP>(rand_ccoeffs(s.cseed, I(0)), true);
+    case PK_FFTFIR_RTAPS_CIN:
+        return std::make_unique<FftFirMixedP>(dsplib::complex(rand_coeffs(s.cseed, I(0))), false);
     case PK_DECIM: {
         const int m = I(0);
         const int hl = I(1);
@@ -387,6 +416,8 @@ inline ProcSpec gen_proc_spec(Rng& r, int kind, bool big) {
         break;
     case PK_FFTFIR_R:
     case PK_FFTFIR_C:
+    case PK_FFTFIR_CTAPS_RIN:
+    case PK_FFTFIR_RTAPS_CIN:
         p[0] = double(r.logi(2, big ? 1000 : 300));
         break;
     case PK_DECIM:
